@@ -11,6 +11,7 @@ import (
 	"bytes"
 	"encoding/json"
 	"fmt"
+	"regexp"
 	"sort"
 	"strings"
 	"testing"
@@ -33,8 +34,16 @@ const prop = "C20"
 type Case struct {
 	Src      string   `json:"src,omitempty"`
 	Raw      []byte   `json:"raw,omitempty"`
-	Override []string `json:"override,omitempty"`
+	Override []string `json:"override,omitempty"` // templates replaced by a marker template
+	Empty    []string `json:"empty,omitempty"`    // templates replaced by a file without content
+	Blank    string   `json:"blank,omitempty"`    // content of those files: "" or white space only
 	Strict   bool     `json:"strict,omitempty"`
+	// kind "session": Docs are rendered one after the other on ONE Markdown instance, Via[i] says
+	// how ("bytes" = RenderBytes, "load" = Load + Render); LoadFirst loads all "load" documents
+	// before anything is rendered.
+	Docs      []string `json:"docs,omitempty"`
+	Via       []string `json:"via,omitempty"`
+	LoadFirst bool     `json:"load_first,omitempty"`
 }
 
 var known = kf.Load()
@@ -200,7 +209,7 @@ var replacement = map[string]string{
 }
 
 func checkOverride(c Case, st *stats) error {
-	set := map[string]bool{}
+	set, empty := map[string]bool{}, map[string]bool{}
 	files := map[string]string{"unrelated.txt": "x"}
 	for _, name := range c.Override {
 		r, ok := replacement[name]
@@ -210,33 +219,177 @@ func checkOverride(c Case, st *stats) error {
 		set[name] = true
 		files["markdown/"+name+".vuego"] = r + "\n"
 	}
+	if strings.TrimSpace(c.Blank) != "" {
+		return nil // Blank must be empty or white space (hand-edited replay)
+	}
+	for _, name := range c.Empty {
+		if _, ok := replacement[name]; !ok || set[name] {
+			return nil
+		}
+		empty[name] = true
+		files["markdown/"+name+".vuego"] = c.Blank
+	}
 	src := []byte(c.Src)
 	if strings.Contains(c.Src, rawStart) || strings.Contains(c.Src, rawEnd) {
 		return nil // the oracle's own bracket characters: not checked
 	}
-	bracketed, err := refHTMLBracketed(src, set["raw_html"])
+	// A user template without content renders nothing, so the nodes it stands for contribute
+	// nothing, their content included ("replaces exactly the corresponding default template").
+	drop := dropKinds(empty)
+	bracketed, err := refHTMLBracketed(src, set["raw_html"], drop)
 	if err != nil {
 		return nil
 	}
 	ref := stripBrackets.Replace(bracketed)
 	got, err := renderVuego(src, files)
+	what := fmt.Sprintf("override marker=%v empty(%q)=%v", c.Override, c.Blank, c.Empty)
 	if err != nil {
-		return fmt.Errorf("rendering with overridden %v failed: %v%s", c.Override, err, describe(c.Src, ref, got))
+		return fmt.Errorf("rendering with %s failed: %v%s", what, err, describe(c.Src, ref, got))
 	}
 	fa := analyse(src)
 	if st.skip(c, fa) {
 		return nil
 	}
-	want, attributable := markRef(bracketed, set, fa.aKinds)
+	if !c.Strict && len(drop) > 0 && isOpen(fLinkTextTrim) && linkPadded(src, drop) {
+		if st != nil {
+			st.add([]string{fLinkTextTrim})
+			st.skipped++
+		}
+		return nil // leaving the nodes out puts the document into the region of the open finding
+	}
+	want, attributable := markRef(bracketed, set, aKindsOf(src, drop), empty["hard_break"])
 	if !attributable {
 		return nil // the <a> tags of the reference do not match the AST (never observed)
 	}
-	d, tolerated := compare(want, got, tolerances(c))
-	if d != "" {
-		return fmt.Errorf("override %v: expected = reference with data-ov on exactly the elements of the overridden templates; %s%s", c.Override, d, describe(c.Src, want, got))
+	t := tolerances(c)
+	if c.Blank != "" && !c.Strict {
+		// a template that consists of white space may write white space where the reference has
+		// nothing: words are compared with white space removed
+		t.inlineSpace = true
 	}
-	st.add(tolerated)
+	d, tolerated := compare(want, got, t)
+	if d != "" {
+		return fmt.Errorf("%s: expected = reference with data-ov on exactly the elements of the marker templates and without the nodes of the empty templates; %s%s", what, d, describe(c.Src, want, got))
+	}
+	if c.Blank == "" {
+		st.add(tolerated)
+	}
 	return nil
+}
+
+// ---- kind "session" ------------------------------------------------------------------------
+
+// checkSession renders the documents one after the other on one Markdown instance. The statement
+// speaks about every document: what the instance rendered before is not part of it, so each output
+// is compared with the reference rendering of that document alone.
+func checkSession(c Case, st *stats) error {
+	m := fstest.MapFS{}
+	for i, d := range c.Docs {
+		m[fmt.Sprintf("d%d.md", i)] = &fstest.MapFile{Data: []byte(d), Mode: 0o644}
+	}
+	md := markdown.New(m)
+	via := func(i int) string {
+		if i < len(c.Via) && c.Via[i] == "load" && !strings.HasPrefix(c.Docs[i], "---") {
+			return "load"
+		}
+		return "bytes"
+	}
+	loaded := map[int]*markdown.Document{}
+	load := func(i int) error {
+		doc, err := md.Load(fmt.Sprintf("d%d.md", i))
+		if err != nil {
+			return fmt.Errorf("document %d of the session: Load failed: %v", i, err)
+		}
+		loaded[i] = doc
+		return nil
+	}
+	if c.LoadFirst {
+		for i := range c.Docs {
+			if via(i) == "load" {
+				if err := load(i); err != nil {
+					return err
+				}
+			}
+		}
+	}
+	t := tolerances(c)
+	for i, d := range c.Docs {
+		var b bytes.Buffer
+		var err error
+		if via(i) == "load" {
+			if loaded[i] == nil {
+				if err := load(i); err != nil {
+					return err
+				}
+			}
+			err = loaded[i].Render(&b)
+		} else {
+			err = md.RenderBytes(&b, []byte(d))
+		}
+		got := b.String()
+		ref, rerr := refHTML([]byte(d))
+		if rerr != nil {
+			continue
+		}
+		where := fmt.Sprintf("document %d of %d rendered (%s) on one instance after %q", i, len(c.Docs), via(i), c.Docs[:i])
+		if err != nil {
+			return fmt.Errorf("%s: rendering failed: %v%s", where, err, describe(d, ref, got))
+		}
+		if st.skip(Case{Src: d, Strict: c.Strict}, analyse([]byte(d))) {
+			continue
+		}
+		diff, tolerated := compare(ref, got, t)
+		if diff != "" {
+			return fmt.Errorf("%s differs from the reference rendering of that document alone: %s%s", where, diff, describe(d, ref, got))
+		}
+		st.add(tolerated)
+	}
+	return nil
+}
+
+var labelDefRe = regexp.MustCompile(`(?m)^ {0,3}\[([^\]\n]+)\]:`)
+
+func classifySession(c Case) (bool, []string) {
+	cls := []string{fmt.Sprintf("session-len=%d", len(c.Docs))}
+	if c.LoadFirst {
+		cls = append(cls, "session-load-first")
+	}
+	seen := map[string]bool{}
+	earlier := map[string]bool{}
+	nt := false
+	add := func(s string) {
+		if !seen[s] {
+			seen[s] = true
+			cls = append(cls, s)
+		}
+	}
+	for i, d := range c.Docs {
+		if i < len(c.Via) && c.Via[i] == "load" {
+			add("session-via-load")
+		} else {
+			add("session-via-bytes")
+		}
+		own := map[string]bool{}
+		for _, m := range labelDefRe.FindAllStringSubmatch(d, -1) {
+			own[strings.ToLower(m[1])] = true
+		}
+		low := strings.ToLower(d)
+		for l := range earlier {
+			if !strings.Contains(low, "["+l+"]") {
+				continue
+			}
+			nt = true
+			if own[l] {
+				add("session-redefines-label-of-earlier-document")
+			} else {
+				add("session-uses-label-defined-only-in-earlier-document")
+			}
+		}
+		for l := range own {
+			earlier[l] = true
+		}
+	}
+	return nt, cls
 }
 
 // kitchenSink is a fixed document that contains every construct a default template renders
@@ -362,9 +515,23 @@ func classifyOverride(c Case) (bool, []string) {
 			cls = append(cls, "override-hit:"+n)
 		}
 	}
+	if len(c.Empty) > 0 {
+		cls = append(cls, fmt.Sprintf("override-empty-size=%d", sizeBucket(len(c.Empty))))
+		if c.Blank == "" {
+			cls = append(cls, "override-empty-file")
+		} else {
+			cls = append(cls, "override-whitespace-only-file")
+		}
+	}
+	for _, n := range c.Empty {
+		if used[n] {
+			hit++
+			cls = append(cls, "override-empty-hit:"+n)
+		}
+	}
 	notOverridden := false
 	for n, u := range used {
-		if u && !contains(c.Override, n) {
+		if u && !contains(c.Override, n) && !contains(c.Empty, n) {
 			notOverridden = true
 		}
 	}
@@ -418,6 +585,8 @@ func replay(kind string, raw json.RawMessage) error {
 	switch {
 	case strings.HasPrefix(kind, "bytes"), strings.HasPrefix(kind, "Fuzz"):
 		return run.Decode(raw, checkBytes)
+	case strings.HasPrefix(kind, "session"):
+		return run.Decode(raw, func(c Case) error { return checkSession(c, nil) })
 	case strings.HasPrefix(kind, "override"):
 		return run.Decode(raw, func(c Case) error { return checkOverride(c, nil) })
 	}
@@ -435,6 +604,50 @@ var byteTokens = []string{
 	"\r", "\r\n", "\x00", "\xff", "\xc3", "\xe2\x80", "|", "---", "===", ":-:", "1.", "0.", "- [ ]", "![", "](", "\"", "'", "\\", "&#", "&amp;",
 	"<!--", "-->", "<pre>", "</pre>", "<script>", "<?", "<![CDATA[", "<!D", "    ", "  ", " ", "a", "x y", "http://", "www.", "@", ":", "~~",
 	"---\na: b\n---\n", "---\n[\n---\n", "---\n- 1\n---", "{{ content }}", "{{ a.b.c | f }}", "v-html=\"x\"", "<template>", "</template>", "<slot>",
+}
+
+// genSession draws 2-4 documents for one Markdown instance. The documents of the grammar already
+// share their reference labels (r1, r2, ..); on top of that an earlier document gets explicit
+// definitions and later ones use the same labels without defining them, or define them again with
+// another destination (also in another case: labels match case-insensitively).
+func genSession(rec *ev.Rec) func(t *rapid.T) Case {
+	labels := []string{"foo", "r1", "r2", "Foo Bar", "é"}
+	return func(t *rapid.T) Case {
+		n := rapid.IntRange(2, 4).Draw(t, "docs")
+		c := Case{LoadFirst: rapid.IntRange(0, 4).Draw(t, "loadFirst") == 4}
+		for i := 0; i < n; i++ {
+			g := newGen(t, rec)
+			g.maxLines = maxDocLines - 6
+			d := strings.TrimRight(g.document(), "\r\n")
+			var extra []string
+			k := rapid.IntRange(0, 2).Draw(t, "shared")
+			for j := 0; j < k; j++ {
+				l := rapid.SampledFrom(labels).Draw(t, "label")
+				use := l
+				if rapid.IntRange(0, 3).Draw(t, "upper") == 3 {
+					use = strings.ToUpper(l)
+				}
+				switch rapid.IntRange(0, 4).Draw(t, "role") {
+				case 0, 1: // definition (a redefinition when an earlier document has one) and a use
+					extra = append(extra, fmt.Sprintf("see [%s] and [text][%s]", use, use), "",
+						fmt.Sprintf("[%s]: /doc%d/%d \"title %d\"", l, i, j, i))
+				case 2: // use without a definition in this document
+					extra = append(extra, fmt.Sprintf("see [%s], [%s][] and [text][%s] ![img][%s]", use, use, use, use))
+				case 3: // definition only
+					extra = append(extra, fmt.Sprintf("[%s]: </doc%d> 'only %d'", l, i, i))
+				default: // a use inside other constructs
+					extra = append(extra, fmt.Sprintf("> - *[%s]* | [%s]", use, use))
+				}
+				extra = append(extra, "")
+			}
+			if len(extra) > 0 {
+				d += "\n\n" + strings.Join(extra, "\n")
+			}
+			c.Docs = append(c.Docs, d+"\n")
+			c.Via = append(c.Via, rapid.SampledFrom([]string{"bytes", "load"}).Draw(t, "via"))
+		}
+		return c
+	}
 }
 
 func genBytes(rec *ev.Rec) func(t *rapid.T) Case {
@@ -507,7 +720,7 @@ func TestProp(t *testing.T) {
 	// the bracketing reference renderer must render exactly what the plain one renders
 	for _, src := range append([]string{sink}, overrideRegressions...) {
 		plain, _ := refHTML([]byte(src))
-		br, _ := refHTMLBracketed([]byte(src), false)
+		br, _ := refHTMLBracketed([]byte(src), false, nil)
 		if stripBrackets.Replace(br) != plain {
 			t.Fatalf("harness: bracketed reference differs from the plain reference for %q", src)
 		}
@@ -522,6 +735,36 @@ func TestProp(t *testing.T) {
 				okAll = false
 			}
 		}
+	}
+	// user templates without content (the way to suppress a construct): each name alone as an empty
+	// and as a white-space-only file, each name empty with every other template marked, each
+	// (empty, marked) pair, and all empty
+	var blanks []Case
+	full := 1<<len(templateNames) - 1
+	for i, n := range templateNames {
+		blanks = append(blanks,
+			Case{Src: sink, Empty: []string{n}},
+			Case{Src: sink, Empty: []string{n}, Blank: " \n\t\n"},
+			Case{Src: sink, Empty: []string{n}, Override: subsetOf(full &^ (1 << i))})
+		for j, m := range templateNames {
+			if i != j {
+				blanks = append(blanks, Case{Src: sink, Empty: []string{n}, Override: []string{m}})
+			}
+		}
+	}
+	blanks = append(blanks, Case{Src: sink, Empty: subsetOf(full)}, Case{Src: sink, Empty: subsetOf(full), Blank: "\n"})
+	for i, c := range blanks {
+		if i%shards != shard {
+			continue
+		}
+		nt, cls := classifyOverride(c)
+		if !run.Each(rec, "override-enum", c, nt, cls, func(c Case) error { return checkOverride(c, st) }) {
+			okAll = false
+			break
+		}
+	}
+	if okAll {
+		rec.Exhaustive("empty / white-space-only override file for each template alone, with all others marked, with each single other marked, and for all templates, on the fixed all-constructs document")
 	}
 	for i, s := range subsets {
 		if i%shards != shard {
@@ -551,21 +794,36 @@ func TestProp(t *testing.T) {
 	run.Rapid(t, rec, "override", func(t *rapid.T) Case {
 		g := newGen(t, rec)
 		src := g.document()
-		var s []string
-		switch rapid.IntRange(0, 3).Draw(t, "density") {
+		var s, e []string
+		blank := ""
+		switch rapid.IntRange(0, 6).Draw(t, "density") {
 		case 0:
 			s = []string{rapid.SampledFrom(templateNames).Draw(t, "one")}
 		case 1:
 			s = subsetOf(rapid.IntRange(0, 1<<len(templateNames)-1).Draw(t, "mask"))
 		case 2:
 			s = subsetOf(rapid.IntRange(0, 1<<len(templateNames)-1).Draw(t, "mask") | rapid.IntRange(0, 1<<len(templateNames)-1).Draw(t, "mask2"))
-		default:
+		case 3:
 			s = subsetOf(1<<len(templateNames) - 1)
+		case 4: // one empty file, the rest default or marked
+			one := rapid.IntRange(0, len(templateNames)-1).Draw(t, "emptyOne")
+			e = []string{templateNames[one]}
+			s = subsetOf(rapid.IntRange(0, 1<<len(templateNames)-1).Draw(t, "mask") &^ (1 << one))
+		default: // every template default, marked or empty
+			em := rapid.IntRange(0, 1<<len(templateNames)-1).Draw(t, "emptyMask") & rapid.IntRange(0, 1<<len(templateNames)-1).Draw(t, "emptyMask2")
+			e = subsetOf(em)
+			s = subsetOf(rapid.IntRange(0, 1<<len(templateNames)-1).Draw(t, "mask") &^ em)
 		}
-		return Case{Src: src, Override: s}
+		if len(e) > 0 {
+			blank = rapid.SampledFrom([]string{"", "", "\n", " \n\t\n", "  "}).Draw(t, "blank")
+		}
+		return Case{Src: src, Override: s, Empty: e, Blank: blank}
 	}, classifyOverride, func(c Case) error { return checkOverride(c, st) })
 
-	// (4) arbitrary byte strings: rendering never fails
+	// (4) histories: several documents on one Markdown instance, sharing link reference labels
+	run.Rapid(t, rec, "session", genSession(rec), classifySession, func(c Case) error { return checkSession(c, st) })
+
+	// (5) arbitrary byte strings: rendering never fails
 	run.Rapid(t, rec, "bytes", genBytes(rec), classifyBytes, checkBytes)
 }
 
